@@ -447,7 +447,9 @@ func c19Run(t *engine.T, shard string) {
 				lc{fmt.Sprintf("*string(%d)", n), &s, len(s)},
 			)
 		}
-		cases = append(cases, lc{"nil", nil, 0}, lc{"nil slice", []int(nil), 0}, lc{"nil map", map[string]int(nil), 0})
+		cases = append(cases, lc{"nil", nil, 0}, lc{"nil slice", []int(nil), 0}, lc{"nil map", map[string]int(nil), 0},
+			// Go's len of a nil pointer to an array is the array type's length; nil pointers to slices / maps / strings have length 0
+			lc{"nil *[3]int", (*[3]int)(nil), 3}, lc{"nil *[0]int", (*[0]int)(nil), 0}, lc{"nil *[]int", (*[]int)(nil), 0}, lc{"nil *map", (*map[string]int)(nil), 0}, lc{"nil *string", (*string)(nil), 0})
 		for _, c := range cases {
 			c := c
 			t.Case("len "+c.name, c.want > 0, func() (string, *engine.Fail) {
